@@ -224,6 +224,7 @@ type Eng struct {
 	Split bool // crash / sync traces: "call" and "ret" events around the I/O events of a call
 
 	Hostile  bool
+	gets     int
 	kbuf     []byte
 	vbuf     []byte
 	kshadow  []byte
@@ -452,8 +453,18 @@ func (e *Eng) Get(rank int) (int, string) {
 		if err != nil {
 			return VNil, err
 		}
-		e.retain(b)
-		return e.V.ID(b), nil
+		id := e.V.ID(b)
+		e.gets++
+		if e.Hostile && e.gets%2 == 0 && len(b) > 0 {
+			// the returned slice is the caller's own copy: every other one is overwritten by the caller after
+			// use (what the database holds, and what it returns next, must not depend on that)
+			for i := range b {
+				b[i] = 0xDD
+			}
+		} else {
+			e.retain(b)
+		}
+		return id, nil
 	})
 }
 
